@@ -229,6 +229,11 @@ impl FrameQueue {
         return self.next_id().wrapping_sub(self.window.base_id) < self.window.size;
     }
 
+    // Number of frames which may still be pushed before the transfer window is full
+    pub fn free_count(&self) -> u32 {
+        return self.window.size.saturating_sub(self.next_id().wrapping_sub(self.window.base_id));
+    }
+
     pub fn next_id(&self) -> u32 {
         self.frame_log.next_id()
     }
